@@ -305,6 +305,52 @@ def run(ctx):
     parts = core.parallel_map(work_prep, [pjobs[k::n] for k in range(n)])
     core.merge(ctx, parts)
     ctx.model.calls += ctx.hist.pop('model_driver_requests', 0)
+    # ANY DEFINED BY choice tables are a compile option that is written INTO the dictionary: histories that change only the table
+    import asn1tools
+    adb_text = 'Foo DEFINITIONS ::= BEGIN Fie ::= SEQUENCE { bar INTEGER, fum ANY DEFINED BY bar } Fum ::= SEQUENCE { id INTEGER, val ANY DEFINED BY id, z BOOLEAN OPTIONAL } END'
+    tables = [None,
+              {('Foo', 'Fie', 'fum'): {0: 'NULL', 1: 'INTEGER'}},
+              {('Foo', 'Fie', 'fum'): {1: 'INTEGER', 2: 'IA5String'}, ('Foo', 'Fum', 'val'): {7: 'BOOLEAN'}},
+              {('Foo', 'Fie', 'fum'): {0: 'INTEGER', 3: 'BOOLEAN'}},
+              {('Foo', 'Fum', 'val'): {7: 'INTEGER', 8: 'NULL'}},
+              {('Foo', 'Fie', 'fum'): {0: 'NULL'}}]
+    datas = [('Fie', bytes.fromhex(h)) for h in ('30050201000500', '3006020101020105', '3006020100020105', '30060201020c0141', '30060201021601 41'.replace(' ', ''), '30060201030101ff', '3006020101 0101ff'.replace(' ', ''))] + \
+            [('Fum', bytes.fromhex(h)) for h in ('30060201070101ff', '3006020107020101', '30050201080500')]
+    vals = [('Fie', {'bar': 0, 'fum': None}), ('Fie', {'bar': 1, 'fum': 5}), ('Fie', {'bar': 2, 'fum': 'A'}), ('Fie', {'bar': 3, 'fum': True}), ('Fie', {'bar': 0, 'fum': 5}),
+            ('Fum', {'id': 7, 'val': True}), ('Fum', {'id': 7, 'val': 1}), ('Fum', {'id': 8, 'val': None})]
+
+    def adb_fingerprint(spec):
+        out = []
+        for tn, dt in datas:
+            out.append(repr(impl.decode(spec, tn, dt)[:2]))
+        for tn, v in vals:
+            out.append(repr(impl.encode(spec, tn, v)[:2]))
+        return out
+    for h in range(ctx.n(12, 120)):
+        d = asn1tools.parse_string(adb_text)
+        hist = []
+        for step in range(rng.randint(2, 5)):
+            if rng.random() < 0.2:
+                d = eval(pformat(d))
+                hist.append('eval(pformat(d))')
+                continue
+            codec = rng.choice(['ber', 'der', 'ber', 'oer'])
+            tb = rng.choice(tables)
+            hist.append('compile_dict(d, %r, any_defined_by_choices=%r)' % (codec, tb))
+            ctx.case(('adb-history', tuple(hist)))
+            ctx.count('arrangement.any-defined-by-history')
+            outs = []
+            for src in (d, None):
+                try:
+                    sp = asn1tools.compile_dict(src, codec, any_defined_by_choices=tb) if src is not None else asn1tools.compile_string(adb_text, codec, any_defined_by_choices=tb)
+                    outs.append(adb_fingerprint(sp) if codec != 'oer' else ['compiled'])
+                except Exception as e:
+                    outs.append(['compile error', impl.classify(e)])
+            if outs[0] != outs[1]:
+                diff = next(((a, b) for a, b in zip(outs[0], outs[1]) if a != b), (outs[0][:1], outs[1][:1]))
+                ctx.violation('a dictionary compiled after a history of other ANY DEFINED BY choice tables behaves differently from a fresh parse compiled with the same table',
+                              {'module': adb_text, 'history': hist, 'first_difference_history_vs_fresh': repr(diff)[:600]})
+                break
     # regression vector of a repaired defect: numeric_enums=True followed by False on the same dictionary
     import asn1tools
     text = 'M DEFINITIONS AUTOMATIC TAGS ::= BEGIN A ::= SEQUENCE { e ENUMERATED { a(0), b(5) } DEFAULT b } END'
